@@ -162,7 +162,7 @@ struct Runner
 			for(int s = 0; s < sc.steps[e]; ++s) {
 				const uint32_t p = sc.plan[e][s];
 				const int depth = QTraits<Q>::hasDqn ? (int)(p & 3) : 0;
-				const int nEvents = 1 + (int)((p >> 2) & 3);
+				const int nEvents = (depth > 0 && ((p >> 30) & 1)) ? 0 : 1 + (int)((p >> 2) & 3); // a DisableQueueNotify scope may be empty
 				const int pauseUs = (int)((p >> 4) % 1500);
 				scopes(tid, depth, nEvents, nextEid, depth ? pauseUs : 0);
 				if((p >> 16) & 1) std::this_thread::sleep_for(std::chrono::microseconds((p >> 17) % 800));
@@ -216,7 +216,24 @@ static void runScenario(uint64_t caseNo, Rng & rng, const char * cfgName)
 	// template aimed at the window of the statement: a waiter re-enters wait() (after draining a plain enqueue) while the
 	// enqueuer is inside a DisableQueueNotify scope that is its LAST notifying action; the waiter is delayed between its
 	// predicate evaluation and its blocking
-	if(! timedScenario && rng.chance(1, 2)) {
+	if(! timedScenario && QTraits<Q>::hasDqn && rng.chance(1, 4)) {
+		// template 2: one thread ends an EMPTY DisableQueueNotify scope while another thread makes a plain enqueue that is its
+		// last action; the plain enqueuer is delayed around its read of the notification counter / before taking the queue mutex
+		count("template2_scenarios");
+		sc.enqueuers = 2;
+		sc.waiters = 1 + (int)rng.below(2);
+		sc.enqueuerProcesses = false;
+		sc.steps[0] = 1; sc.plan[0][0] = (uint32_t)((1 + rng.below(3)) | (1u << 30) | ((200 + rng.below(1200)) << 4)); // empty scope with a pause inside
+		sc.steps[1] = 1; sc.plan[1][0] = (uint32_t)(rng.below(2) << 2);                                              // plain enqueue of 1-2 events
+		Sched & s = sched();
+		s.mode = 2;
+		static const char * kT[] = { "atomic.load.post", "atomic.load.post", "lock.pre", "atomic.load.pre", "racy-read.end" };
+		s.tag = tags().idOf(kT[rng.below(5)]);
+		s.role = ROLE_ENQ;
+		s.nth = 1 + (int)rng.below(8);
+		s.delayUs = 800 + (int)rng.below(2500);
+	}
+	else if(! timedScenario && rng.chance(1, 2)) {
 		count("template_scenarios");
 		sc.enqueuers = 1;
 		if(rng.chance(2, 3)) sc.waiters = 1;
@@ -245,7 +262,7 @@ static void runScenario(uint64_t caseNo, Rng & rng, const char * cfgName)
 	oplog(desc);
 	for(int e = 0; e < sc.enqueuers; ++e) {
 		std::string s = "  enqueuer " + num(e) + ":";
-		for(int i = 0; i < sc.steps[e]; ++i) s += " [dqn-depth=" + num(QTraits<Q>::hasDqn ? (sc.plan[e][i] & 3) : 0) + " events=" + num(1 + ((sc.plan[e][i] >> 2) & 3)) + "]";
+		for(int i = 0; i < sc.steps[e]; ++i) { const int dd = QTraits<Q>::hasDqn ? (int)(sc.plan[e][i] & 3) : 0; s += " [dqn-depth=" + num(dd) + " events=" + num((dd > 0 && ((sc.plan[e][i] >> 30) & 1)) ? 0 : 1 + (int)((sc.plan[e][i] >> 2) & 3)) + "]"; }
 		oplog(s);
 	}
 
